@@ -52,13 +52,13 @@ CLAIMED.update({
         technique="Lean 4 proof (per-span integer program, zipper invariants) + bounded-exhaustive and random differential correspondence, clauses evaluated on the implementation's output",
         ref="DESIGN.md §5 C10"),
     "C13": dict(
-        text="Proof (partial): the text passes and the token loop of full_cleaning are modelled (token list as input, recorded from the real tokenizer); for all texts / all token lists: no blank line in the result, a COMMENT is emitted iff it is a hint (then normalised), hints are kept (first line included), exactly the docstring-like STRING statements become `pass`, the leading-comment pass removes only non-hint # lines, the blank-line and useless-pass passes are idempotent. C13_main_guard (only the guarded blocks go, the code after them survives; parser ranges as oracle), C13_rows_not_glued / C13_line_open (a continuation line at column 0 is not glued), C13_fstring_braces. Models mirror fixes e959b88 ff0b849 decc026 2488bc4 466f14f 9ee7189 55c4b14; no open finding.",
+        text="Proof (partial): the text passes and the token loop of full_cleaning are modelled (token list as input, recorded from the real tokenizer); for all texts / all token lists: no blank line in the result, a COMMENT is emitted iff it is a hint (then normalised), hints are kept (first line included), exactly the docstring-like STRING statements become `pass`, the leading-comment pass removes only non-hint # lines, the blank-line and useless-pass passes are idempotent. C13_main_guard (only the guarded blocks go, the code after them survives; parser ranges as oracle), C13_rows_not_glued / C13_line_open (a continuation line at column 0 is not glued), C13_fstring_braces. exactly the docstring statements of the code-independent spec DocStmt (a STRING at a statement start whose next non-comment token is NEWLINE) become `pass` (C13_docstring_to_pass). Models mirror fixes e959b88 ff0b849 decc026 2488bc4 466f14f 9ee7189 55c4b14 4b0a4d7 643e8d6. Open finding F39 (a docstring that is not a lone string token — `\"a\" \"b\"`, `(\"d\")`, `\"d\"; x` — is kept: not invariant under docstring insertion).",
         note="Exercised only (depend on CPython's tokenizer/parser): valid Python, same AST modulo the four kinds of noise, noise invariance, whole-cleaning idempotence — checked on generated and corpus programs, a failure is a violation with the program as replay. Regex transcriptions validated bounded-exhaustively against the real engine.",
         technique="Lean 4 proofs over a token-list model + bounded-exhaustive regex validation + differential/metamorphic correspondence with Cleanup",
         ref="DESIGN.md §5 C13"),
     "C18": dict(
         text="Proof (partial): the option-record -> plan decisions of cli_collect / cli_recommend / cli_tag / list_programs are modelled as pure functions of the options and file-system facts; C18_taxonomy_precedence, C18_output_default_*, C18_format_by_extension, C18_db_lookup, C18_prefix, C18_stdout_mode, C18_tag, C18_listing hold for all option records and all file-system facts. Correspondence: the real entry points (paroxython.cli.main in-process and `python -m paroxython.cli`) over generated directories, databases and pipelines, compared with the library call the plan prescribes. Model mirrors fix 8fecc4f.",
-        note="docopt, glob, file I/O and the library calls themselves are exercised only. Mirrored rather than flagged: the `-db.json` fallback is dead code (second candidate is `D_db.json-db.json`), `collect -o x.txt` writes nothing, `tag -f xyz` gives TSV.",
+        note="docopt, glob, file I/O and the library calls themselves are exercised only. Open finding F35 (`collect .`, `..`, `a/..` use the lexical parent: DIRECTORY/../taxonomy.tsv ignored, `_db.json` written inside DIRECTORY; C18_taxonomy_documented states the domain where the lexical parent is the documented one). Mirrored rather than flagged: the `-db.json` fallback is dead code (second candidate is `D_db.json-db.json`), `collect -o x.txt` writes nothing, `tag -f xyz` gives TSV.",
         technique="Lean 4 proofs of decision rules + differential correspondence through the real CLI entry points",
         ref="DESIGN.md §5 C18"),
     "C11": dict(
